@@ -10,6 +10,7 @@ import (
 	"os"
 	"path/filepath"
 	"runtime"
+	"slices"
 	"syscall"
 	"time"
 
@@ -652,107 +653,110 @@ func (viso *VirtualISO) read(buf []byte, off int64) (int64, error) {
 		return 0, afero.ErrFileClosed
 	}
 
+	if off < 0 {
+		return 0, syscall.EINVAL
+	}
+
+	if len(buf) == 0 {
+		return 0, nil
+	}
+
 	offset := sizeBytes(off)
-	remain := sizeBytes(len(buf))
-	read := int64(0)
 
 	// at EOF
-	if offset >= viso.totalSize || remain == 0 {
+	if offset >= viso.totalSize {
 		return 0, io.EOF
 	}
 
-	// direct read from buffer
+	// never give more than announced size
+	if remain := viso.totalSize - offset; sizeBytes(len(buf)) > remain {
+		buf = buf[:remain]
+	}
+
+	read := 0
+
+	// direct read from buffer with filesystem structures
 	if offset < viso.fsBuf.size() {
-		end := min(offset+remain, viso.fsBuf.size())
-		written := copy(buf, viso.fsBuf[offset:end])
-		buf = buf[written:]
-		remain -= sizeBytes(written)
-		read += int64(written)
-		offset += sizeBytes(written)
+		n := copy(buf, viso.fsBuf[offset:])
+		read += n
+		offset += sizeBytes(n)
 	}
 
-	if offset >= viso.totalSize || remain == 0 {
-		return read, nil
-	}
+	// files (each one padded with zeroes to sector size)
+	for read < len(buf) && offset < viso.padAreaStart {
+		n, err := viso.readFilesArea(buf[read:], offset)
+		read += n
+		offset += sizeBytes(n)
 
-	// read files
-	if offset < viso.padAreaStart {
-		for fileItem := range viso.files.filesToRead(remain, offset) {
-			if offset < fileItem.rLBA.bytes() {
-				return read, fmt.Errorf("file %s location (%d) greater than offset (%d)",
-					fileItem.path, fileItem.rLBA.bytes(), offset)
-			}
-
-			if offset >= fileItem.rLBA.bytes()+fileItem.size.sectors().bytes() {
-				return read, fmt.Errorf("offset (%d) greater than padded file %s location(%d)+size(%d)",
-					offset, fileItem.path, fileItem.rLBA.bytes(), fileItem.size.sectors().bytes())
-			}
-
-			f, err := fileItem.openOnDemand(viso.fs)
-			if err != nil {
-				return read, fmt.Errorf("failed to open %s: %w", fileItem.path, err)
-			}
-
-			fileOffset := offset - fileItem.rLBA.bytes()
-
-			if fileOffset < fileItem.size {
-				_, err = f.Seek(int64(fileOffset), io.SeekStart)
-				if err != nil {
-					return read, fmt.Errorf("seek %s failed: %w", fileItem.path, err)
-				}
-
-				// ReadFull because sometimes one Read may be not enough.
-				// We want to read minimum between overall remaining amount of bytes and amount of bytes needed to reach EOF.
-				n, err := io.ReadFull(f, buf[:min(remain, fileItem.size-fileOffset)])
-				if err != nil {
-					return read, fmt.Errorf("read %s failed: %w", fileItem.path, err)
-				}
-
-				buf = buf[n:]
-				remain -= sizeBytes(n)
-				read += int64(n)
-				offset += sizeBytes(n)
-			}
-
-			// fill remaining space with zeroes
-			if fileItem.size%sectorSize > 0 && remain > 0 {
-				toWrite := sectorSize - fileItem.size%sectorSize
-				if remain < toWrite {
-					remain = toWrite
-				}
-
-				for i := sizeBytes(0); i < toWrite; i++ {
-					buf[i] = 0
-				}
-				buf = buf[toWrite:]
-				remain -= toWrite
-				read += int64(toWrite)
-				offset += toWrite
-			}
+		if err != nil {
+			return int64(read), err
 		}
 	}
 
-	// read pad area
-	if offset >= viso.padAreaStart && offset < viso.totalSize {
-		toRead := viso.padAreaSize - (offset - viso.padAreaStart)
-		if toRead == 0 {
-			return read, nil
-		}
-
-		if toRead > remain {
-			toRead = remain
-		}
-
-		for i := sizeBytes(0); i < remain; i++ {
-			buf[i] = 0
-		}
-
-		offset += remain
-		read += int64(remain)
-		remain = 0
+	// pad area, only zeroes here
+	if read < len(buf) {
+		clear(buf[read:])
+		read = len(buf)
 	}
 
-	return read, nil
+	return int64(read), nil
+}
+
+// readFilesArea reads a piece of one file (or zeroes from its padding) located at given offset.
+// Offset must be between end of filesystem structures and start of pad area.
+func (viso *VirtualISO) readFilesArea(buf []byte, offset sizeBytes) (int, error) {
+	// files are placed one by one ordered by location, file occupies integer number of sectors (so empty one occupies
+	// nothing), so we need the first file which (padded) end is after the offset
+	idx, _ := slices.BinarySearchFunc(viso.files, offset, func(item fileItem, target sizeBytes) int {
+		if item.rLBA.bytes()+item.size.sectors().bytes() > target {
+			return 1
+		}
+
+		return -1
+	})
+
+	if idx >= len(viso.files) || viso.files[idx].rLBA.bytes() > offset {
+		// gap between files (normally impossible), fill it with zeroes
+		gapEnd := viso.padAreaStart
+		if idx < len(viso.files) {
+			gapEnd = viso.files[idx].rLBA.bytes()
+		}
+
+		n := int(min(sizeBytes(len(buf)), gapEnd-offset))
+		clear(buf[:n])
+
+		return n, nil
+	}
+
+	fileItem := &viso.files[idx]
+	fileOffset := offset - fileItem.rLBA.bytes()
+
+	// padding after file data
+	if fileOffset >= fileItem.size {
+		n := int(min(sizeBytes(len(buf)), fileItem.size.sectors().bytes()-fileOffset))
+		clear(buf[:n])
+
+		return n, nil
+	}
+
+	f, err := fileItem.openOnDemand(viso.fs)
+	if err != nil {
+		return 0, fmt.Errorf("failed to open %s: %w", fileItem.path, err)
+	}
+
+	toRead := int(min(sizeBytes(len(buf)), fileItem.size-fileOffset))
+
+	n, err := f.ReadAt(buf[:toRead], int64(fileOffset))
+	if n == toRead {
+		return n, nil
+	}
+
+	if err == nil || errors.Is(err, io.EOF) {
+		// file became shorter than it was during image creation
+		err = io.ErrUnexpectedEOF
+	}
+
+	return n, fmt.Errorf("read %s failed: %w", fileItem.path, err)
 }
 
 func (viso *VirtualISO) Seek(offset int64, whence int) (int64, error) {
@@ -765,12 +769,13 @@ func (viso *VirtualISO) Seek(offset int64, whence int) (int64, error) {
 	case io.SeekCurrent:
 		offset += int64(viso.offset)
 	case io.SeekEnd:
-		offset = int64(viso.totalSize) - offset - 1
+		offset += int64(viso.totalSize)
 	default:
 		return 0, syscall.EINVAL
 	}
 
-	if offset < 0 || sizeBytes(offset) > viso.totalSize {
+	// like for regular files, position after the end is allowed: reads from it report EOF
+	if offset < 0 {
 		return 0, afero.ErrOutOfRange
 	}
 
